@@ -141,6 +141,15 @@ def main():
                     crashes.append("model conformance (%s) disagrees with numpy/CPython: %s" % (name, bad[:3]))
         except Exception:
             crashes.append("model conformance crashed: " + traceback.format_exc())
+        try:
+            from pyvc import crosscheck
+
+            xbad, xtotal = crosscheck.run()
+            ev_cov["executor_crosscheck"] = dict(concrete_executions_compared_with_cpython=xtotal, disagreements=len(xbad))
+            if xbad:
+                crashes.append("executor / CPython cross-check disagrees: %s" % (xbad[:3],))
+        except Exception:
+            crashes.append("executor cross-check crashed: " + traceback.format_exc())
 
     # ---------------- tier P: contracts -----------------------------------------------------------
     summ = {}
@@ -318,6 +327,7 @@ def main():
         explanation="tier P/L: %d proof obligations generated from the real source, %d discharged (unbounded in sizes/contents within the stated structure bounds); tier B (bounded, NOT proof): %d run-time contract evaluations on the real functions" % (n_obl, n_dis, rtc_eval),
         exhaustive=False,
         known_findings=known_lines,
+        selftests=ev_cov,
     )
     ev = dict(property_id=prop, tier=tier, seed=seed, level=level, coverage=cov, assumptions=assumptions, wall_s=round(time.time() - t0, 2), violations=len(violations))
     os.makedirs(os.path.join(HERE, "evidence"), exist_ok=True)
